@@ -54,7 +54,7 @@ class Check:
     assumptions = [
         'same tools, same source and build directory paths for every member of a group',
         'meson-log.txt, coredata.dat/build.dat (pickles with GUIDs), compile_commands.json (stub ninja output) and install/test pickles are not compared; the statement lists generated text',
-        'mtime preservation is demanded for configure_file outputs in configuration and copy mode and for generated unity sources (what meson itself writes through replace_if_different / copy2); a configure_file(command:) output is written by the command, build.ninja and meson-info are always re-created',
+        'mtime preservation is demanded for configure_file outputs in configuration and copy mode and for generated unity sources (what meson itself writes through replace_if_different / copy2, the mechanism the property is anchored in, i.e. files that build steps consume); a configure_file(command:) output is written by the command; build.ninja, meson-info, generated .pc files and depmf.json (consumed by IDEs and by `meson install` only) are re-created by every configuration and only their content is compared',
     ]
 
     def prepare(self, tier: str) -> None:
@@ -86,6 +86,7 @@ class Check:
             'ext_deps': rng.random() < 0.6,
         }
         # configure_file(input:, configuration:) templates in each variable format and line-ending convention
+        extras['depmf'] = rng.random() < 0.5       # the dependency manifest (depmf.json) of a project with licence information
         extras['templates'] = [{'fmt': rng.choice(['meson', 'cmake', 'cmake@']), 'nl': rng.choice(['lf', 'crlf', 'crlf', 'mixed', 'cr']),
                                 'exec': rng.random() < 0.3, 'encoding': rng.choice([None, None, 'latin-1'])}
                                for _ in range(rng.randint(0, 3))]
@@ -199,6 +200,15 @@ class Check:
         # project arguments must be added before the first target: right after the preamble
         k = next(i for i, l in enumerate(lines) if l.startswith('gen = generator(')) + 1
         lines[k:k] = head
+        if ex.get('depmf'):
+            assert lines[0].startswith("project('c05', 'c', ")
+            lines[0] = lines[0].replace("project('c05', 'c', ", "project('c05', 'c', version: '1.2.3', license: ['MIT', 'Apache-2.0', 'BSD-3-Clause'], "
+                                        "license_files: ['LICENSE.zz', 'LICENSE.aa'], ", 1)
+            for n in ('LICENSE.zz', 'LICENSE.aa'):
+                with open(os.path.join(sd, n), 'w') as f:
+                    f.write('text of ' + n + '\n')
+            add.append("meson.install_dependency_manifest('share/c06/depmf.json')\n")
+            cfg_outputs.append('depmf.json')
         with open(os.path.join(sd, 'meson.build'), 'w') as f:
             f.write(''.join(lines) + ''.join(add))
         if ex.get('wraps'):
@@ -341,7 +351,7 @@ class Check:
                 viols.append(R.violation('nochange-differs', 'build.ninja changed over a no-change reconfigure: ' + self.first_diff(base['build.ninja'], after.get('build.ninja', b'')),
                                          'nochange-differs:build.ninja'))
             for rel in sorted(base) if not sc.get('corpus') else []:
-                if rel == 'build.ninja' or rel.startswith('meson-info') or rel.endswith(('.pc', '.cmake')) or rel == 'c06_cmd.h':
+                if rel == 'build.ninja' or rel.startswith('meson-info') or rel.endswith(('.pc', '.cmake')) or rel in ('c06_cmd.h', 'depmf.json'):
                     continue   # (configure_file(command:) output is written by the user's command itself, not by meson)
                 if after.get(rel) == base[rel] and os.stat(os.path.join(bd, rel)).st_mtime_ns != before_m.get(rel):
                     viols.append(R.violation('touched-unchanged', f'{rel} has unchanged content but was rewritten (mtime changed) by a no-change reconfigure',
